@@ -680,6 +680,8 @@ class BufferByteArray(XBuffer):
 
     def update_from_buffer(self, offset, source):
         """Copy data from python buffer such as bytearray, bytes, memoryview, numpy array.data"""
+        # as bytes: the length of a typed memoryview counts items
+        source = memoryview(source).cast("B")
         nbytes = len(source)
         self.buffer[offset : offset + nbytes] = source
 
@@ -734,6 +736,8 @@ class BufferNumpy(XBuffer):
 
     def update_from_buffer(self, offset, source):
         """Copy data from python buffer such as bytearray, bytes, memoryview, numpy array.data"""
+        # as bytes: the length of a typed memoryview counts items
+        source = memoryview(source).cast("B")
         nbytes = len(source)
         self.buffer[offset : offset + nbytes] = bytearray(source)
 
